@@ -21,6 +21,8 @@ THEOREMS = [
     "C05.column_round_trip", "C05.round_trip_view", "C05.normVal_plain", "C05.normDoc_clean", "C05.columns_round_trip", "C05.all_variants_round_trip",
     "C05.ensurePK_keeps_columns", "C05.ensurePK_names",
     "C05.ensurePK_replaces_id", "C05.dict_becomes_optional", "C05.single_literal_lost", "C05.C05_full_false",
+    # column names are opaque strings (which steps inspect them)
+    "C05.names_untouched",
     # the header description: the text handed to the docstring emitter agrees between the variants; the repaired defect
     "C05.header_text_agrees", "C05.header_text_before_fix",
     # (iii) variant agreement, class <-> Table normalisation
@@ -116,10 +118,66 @@ def gen_default_dom(r, t):
 # ------------------------------------------------------------------------------------------------------------
 # interfaces
 # ------------------------------------------------------------------------------------------------------------
-# PK candidates (`"_name" in k or "_id" in k or "id_" in k or k == "id"`), the substring at the start, the end and in the middle
-NAMES_CAND = ["dataset_name", "_id", "user_id", "id_", "id", "tbl_name", "valid_from", "row_idx", "grid_x", "my_name_2", "_name"]
+# Column names: everything that is a legal Python identifier and a plausible column name.
+# PK candidates (`"_name" in k or "_id" in k or "id_" in k or k == "id"`): the substring at the start, the end and in the middle
+NAMES_CAND = ["dataset_name", "_id", "user_id", "id_", "id", "tbl_name", "valid_from", "row_idx", "grid_x", "my_name_2", "_name",
+              "größen_id", "kunden_name", "名前_id", "id_番号", "user__id", "x_id", "__id", "température_id", "ünï_name_x",
+              "very_long_column_name_for_the_primary_identifier_of_this_particular_row_id"]
 NAMES_PLAIN = ["_rev", "a", "b", "foo", "bar_baz", "x1", "K", "lr", "epochs", "owner", "n_items", "width", "identity", "kwargs", "model_kwargs",
-               "params", "name", "ids", "idx", "pid", "id2", "ID", "Id"]
+               "params", "name", "ids", "idx", "pid", "id2", "ID", "Id",
+               # non-ASCII letters (Latin-1, Latin Extended, Greek, Cyrillic, CJK); pairs that differ only in non-ASCII letters
+               "größe", "grüße", "grösse", "température", "temperature", "naïve", "naive", "données", "straße", "ñandú", "Ωmega", "λ", "μ", "имя", "名前", "数量", "GRÖSSE", "Größe",
+               # leading / double underscores, digits inside, one letter, long
+               "x", "_", "_x", "__x", "x__y", "x_", "a1b2", "r2d2_", "an_extremely_long_but_perfectly_legal_column_label_that_goes_on_and_on_and_on_0123456789",
+               # keyword + underscore, soft keywords, names of builtins / SQLAlchemy objects / names the emitted module itself uses
+               "class_", "type_", "from_", "type", "match", "case", "metadata", "Column", "Table", "String", "Base", "Enum", "list", "str", "print", "self", "query", "registry",
+               "extra_kwargs", "args"]
+
+
+def legal_name(nm: str) -> bool:
+    """a legal Python identifier that the parser reads back unchanged (CPython NFKC-normalises identifiers: `ﬁ` → `fi`, the micro sign
+    → Greek mu — such names are not generated, the class variant would differ from the Table variant by CPython alone), no hard
+    keyword, inside the Basic Multilingual Plane (JSON \\u escapes without surrogate pairs), and not one of the two names the class
+    parser reserves (`__tablename__`, `__table__`: hypothesis `plainNames` of C05.variants_agree)"""
+    import keyword
+    import unicodedata
+
+    return (nm.isidentifier() and not keyword.iskeyword(nm) and unicodedata.normalize("NFKC", nm) == nm and all(ord(ch) < 0x10000 for ch in nm)
+            and nm not in ("__tablename__", "__table__"))
+
+
+def is_candidate(nm: str) -> bool:
+    """the primary-key candidate rule of ensure_has_primary_key (= Sql.isCandidate), for the coverage counters only"""
+    return "_name" in nm or "_id" in nm or "id_" in nm or nm == "id"
+
+
+assert all(legal_name(n) for n in NAMES_CAND + NAMES_PLAIN) and all(is_candidate(n) for n in NAMES_CAND) and not any(is_candidate(n) for n in NAMES_PLAIN)
+_STEMS = ["col", "wert", "größe", "été", "ñu", "λx", "имя", "名", "数量", "Ab", "x", "q9"]
+
+
+def gen_name(r, candidate: bool) -> str:
+    """a composed identifier: [_|__] stem [digits] [stem] [suffix]; a candidate gets one of the rule's substrings"""
+    while True:
+        nm = r.choice(["", "", "", "_", "__"]) + r.choice(_STEMS) + r.choice(["", "", "7", "_2", "__"]) + r.choice(["", "", "_" + r.choice(_STEMS)])
+        if candidate:
+            nm = r.choice([nm + "_id", nm + "_name", "id_" + nm, nm + "_id_" + r.choice(_STEMS), nm + "_name2"])
+        else:
+            nm += r.choice(["", "", "", "_", "kwargs", "_kwargs", "Id", "ID"])
+        if legal_name(nm) and is_candidate(nm) == candidate:
+            return nm
+
+
+def sample_names(r, k: int, candidate: bool):
+    """k distinct names: mostly from the pools, some composed"""
+    pool = NAMES_CAND if candidate else NAMES_PLAIN
+    out = []
+    while len(out) < k:
+        nm = gen_name(r, candidate) if r.random() < 0.25 else r.choice(pool)
+        if nm not in out:
+            out.append(nm)
+    return out
+
+
 TEXTS = ["the alpha thing", "dataset name", "learning rate used", "a thing", "some text here", "flag for verbosity", "Random seed",
          "e.g. 5", "has [brackets] inside", "PK of nothing", "etc. and so on", "x", "naïve café – ünï", "it's 'quoted' inside", "100% of a/b"]
 FK_TARGETS = ["user.id", "tbl.col", "other_table.dataset_name", "t.c"]
@@ -164,7 +222,7 @@ def gen_case_dom(r, returns_p=0.0):
     # zero / one / several PK-candidate names
     ncand = r.choice([0, 0, 1, 1, 1, 2, 3])
     nplain = r.randint(0 if ncand else 0, 4)
-    names = r.sample(NAMES_CAND, ncand) + r.sample(NAMES_PLAIN, nplain)
+    names = sample_names(r, ncand, True) + sample_names(r, nplain, False)
     r.shuffle(names)
     pk_at = r.randrange(len(names)) if names and r.random() < 0.3 else None
     params, markers = [], []
@@ -232,7 +290,7 @@ def gen_param_odd(r):
         p["items_type"] = r.choice(["int", "str", "nope"])
     if r.random() < 0.1:
         p["server_default"] = r.choice(["now", 5, "'x'"])
-    name = r.choice(NAMES_CAND + NAMES_PLAIN + ["'q'", "a b"])
+    name = r.choice(NAMES_CAND + NAMES_PLAIN + ["'q'", "a b"]) if r.random() < 0.8 else gen_name(r, r.random() < 0.4)
     return name, p
 
 
@@ -811,7 +869,7 @@ def run(chk: core.Check) -> int:
         "translator harness/translators/sqltables.py: reads column_type2typ / typ2column_type / sqlalchemy_top_level_imports from the imported modules (after `import cdd.sqlalchemy.emit`) and writes them as Lean char lists",
         "hand-written model lean/CddVerif/Model/Sql.lean; abstractions: a type is a tree (string predicates on type strings = structural predicates; exercised on every rendered type), "
         "ast.unparse∘ast.parse is the identity on the emitted calls, the docstring emitter/parser behind the header docstring and comment= are black boxes (the model gives the text each emitter hands to the docstring emitter; the harness renders it with the real docstring emitter and compares with the emitted comment= / class docstring), generate_repr_method is not modelled, Literal members are plain strings "
-        "(repr = quote + text + quote), ensure_valid_identifier is the identity on the generated table names",
+        "(repr = quote + text + quote), ensure_valid_identifier is the identity on the generated (ASCII) table names; column names are arbitrary strings for the model (the only steps that inspect them: the candidate rule (substring _name / _id / id_, or equal to id), endswith kwargs, set_value's quote stripping, and the two reserved class attributes __tablename__/__table__), generated as NFKC-normalised non-keyword identifiers of the Basic Multilingual Plane (CPython's parser NFKC-normalises identifiers, which alone would make the class variant differ)",
         "the oracle compares types as normalised Python expressions, descriptions up to outer whitespace and one terminal '.', defaults with their Python type",
     ]
     chk.coverage["tables"] = {"column_type2typ": len(tables["column_type2typ"]), "typ2column_type": len(tables["typ2column_type"]),
@@ -829,7 +887,9 @@ def run(chk: core.Check) -> int:
     n_cases = 4000 if chk.quick else 60000
     cases = [gen_case_dom(rng, returns_p=0.08) for _ in range(n_cases)]
     # fixed corner cases
-    for names in (["id"], ["id", "dataset_name"], ["_id"], ["_rev"], [], ["dataset_name", "tbl_name"], ["params", "id"], ["valid_from"]):
+    for names in (["id"], ["id", "dataset_name"], ["_id"], ["_rev"], [], ["dataset_name", "tbl_name"], ["params", "id"], ["valid_from"],
+                  # non-ASCII identifiers (two of them differ only in non-ASCII letters); keyword-ish / builtin / SQLAlchemy names
+                  ["größe", "grüße", "température"], ["名前", "λ", "class_", "type", "metadata", "Column", "__x", "größen_id"]):
         for force in (False, True):
             cases.append({"name": "Foo", "doc": "Summary line.", "returns": None, "style": "rest", "force": force, "markers": ["plain"] * len(names),
                           "params": [[nm, {"typ_j": {"n": "str"}, "typ": "str", "doc": "the %s" % nm}] for nm in names]})
@@ -844,7 +904,7 @@ def run(chk: core.Check) -> int:
             chk.notes.append("known finding %s is no longer reproduced by its witness (stale line in known_findings.d/C05.txt?)" % fid)
     model = core.model_batch([{"op": "c05.case", "name": c["name"], "force": c["force"], "doc": c["doc"], "has_returns": bool(c.get("returns")), "returns_has_doc": bool((c.get("returns") or {}).get("doc")),
                                "params": [[nm, to_model_param(p)] for nm, p in c["params"]]} for c in cases]) if have_driver else None
-    cov = {"n_params": {}, "typ_class": {}, "default_kind": {}, "marker": {}, "n_candidates": {}, "force": {}, "style": {}, "names": {}, "header_doc_empty": {}, "returns": {},
+    cov = {"n_params": {}, "typ_class": {}, "default_kind": {}, "marker": {}, "n_candidates": {}, "force": {}, "style": {}, "names": {}, "name_class": {}, "header_doc_empty": {}, "returns": {},
            "model_unmodelled": 0}
 
     def bump(k, v):
@@ -853,11 +913,13 @@ def run(chk: core.Check) -> int:
     n_dis = {"ensure_pk": 0, "emit": 0, "parse": 0, "table_to_class": 0, "normal_form": 0}
     for idx, (c, r) in enumerate(zip(cases, res)):
         names = [nm for nm, _ in c["params"]]
-        ncand = sum(1 for nm in names if nm in NAMES_CAND)
+        ncand = sum(1 for nm in names if is_candidate(nm))
         bump("n_params", len(names)); bump("n_candidates", ncand); bump("force", c["force"]); bump("style", c["style"])
         bump("header_doc_empty", not c["doc"]); bump("returns", bool(c.get("returns")))
         for (nm, p), mk in zip(c["params"], c["markers"]):
             bump("typ_class", typ_class(p["typ_j"])); bump("marker", mk); bump("names", nm)
+            bump("name_class", "non-ascii" if not nm.isascii() else "dunder-prefix" if nm.startswith("__") else "underscore-prefix" if nm.startswith("_")
+                 else "ends-kwargs" if nm.endswith("kwargs") else "long" if len(nm) > 40 else "one-char" if len(nm) == 1 else "ascii")
             bump("default_kind", type(p["default"]).__name__ if "default" in p and p["default"] != NoneStr else ("NoneStr" if "default" in p else "absent"))
         replay = {"fn": "case", "case": {k: v for k, v in c.items()}}
         chk.count(("case", jd(replay)), len(names) >= 2 and any(mk != "plain" for mk in c["markers"]))
